@@ -348,10 +348,10 @@ func genPayload(r *rand.Rand, wide bool) payloadIn {
 
 // ---- logs ----------------------------------------------------------------------
 
-// genLog draws a log. About 40 % satisfy SafeChars (the hypothesis of the C10
-// theorem); the others violate it in one (sometimes several) ways. The payload is
-// adversarial in every profile.
-func genLog(r *rand.Rand, wide bool) logIn {
+// genLog draws a log. With unsafe=false it satisfies SafeChars (the hypothesis of the
+// C10 theorem); with unsafe=true it violates SafeChars in one (sometimes several)
+// ways. The payload is adversarial in both profiles.
+func genLog(r *rand.Rand, wide bool, unsafe bool) logIn {
 	l := logIn{Payload: genPayload(r, wide), Date: microDate(r)}
 	// previous hash
 	switch x := r.Intn(20); {
@@ -375,7 +375,7 @@ func genLog(r *rand.Rand, wide bool) logIn {
 	if r.Intn(4) != 0 {
 		l.IK = hx(safeString(r))
 	}
-	if r.Intn(5) < 2 {
+	if !unsafe {
 		return l // SafeChars profile
 	}
 	k := 1
